@@ -10,7 +10,7 @@ of contracts.  What is modelled is the *logical content* of ONE text file, kept 
   csv_str[r][c]      : the text of cell (r, c)           (what ``genfromtxt(path, dtype="str")`` returns)
   csv_flt[r][c]      : the number parsed from cell (r, c) (what ``genfromtxt(path, dtype="float")`` returns; opaque content)
 
-ASSUMED contracts (validated natively by ``tools/validate_h5py_model.py --csv``, same labels):
+ASSUMED contracts (validated natively against numpy by ``tools/validate_csv_model.py``, same labels):
   T1 genfromtxt(path, dtype="float") and genfromtxt(path, dtype="str") are two tables of the SAME shape (rows, cols) over the
      same cells; with fewer than two lines or fewer than two columns the result is not two-dimensional and a 2-index subscript
      raises IndexError
@@ -19,12 +19,8 @@ ASSUMED contracts (validated natively by ``tools/validate_h5py_model.py --csv``,
   T3 ``"None" in column_part`` <=> some cell of the part has the text "None"
   T4 list.count(x) = number of positions holding x (recursive specification function ``csv_count``; the interval lemma used by
      the contracts is proved by induction in contracts/c11_design_space_files.CsvLemmas)
-  T5 PrettyTable(field_names) + add_row(cells) + get_string() + write(): the file holds one header line with the field names
-     and one line per added row, in order, cell by cell: a cell holding None has the text "None"; a cell holding a string s
-     without white space has the text s; a cell holding a number v has a text that is not "None" and parses back to v
-     (exact to the 16 significant digits ``_format_value_in_pretty_table_16`` prints: floats = reals, DESIGN section 3);
-     a table without rows prints as the EMPTY string (no header line)
-  T6 ``"{name}".format(name=name, index=i)`` is ``name`` (names without braces)
+NOT modelled (hence ``to_csv`` / ``get_pretty_table`` are not under contract): PrettyTable's layout, i.e. the link between the cells
+handed to ``add_row`` and the text cells genfromtxt reads back (validated natively for the default export by the same script, T5).
 """
 from __future__ import annotations
 
@@ -94,16 +90,6 @@ class CsvTable(HeapObj):
 
     def clone(self):
         return CsvTable(self.kind)
-
-
-class PrettyTab(HeapObj):
-    """A PrettyTable being filled: field names (ListObj ref) and the rows added so far (n, cells[r][c] as Val)."""
-
-    def __init__(self, fields, n, cells):
-        self.fields, self.n, self.cells = fields, n, cells
-
-    def clone(self):
-        return PrettyTab(self.fields, self.n, self.cells)
 
 
 def _on(ex):
@@ -216,8 +202,6 @@ class DsFileModels:
 
     def call_method(self, ex, recv, name, args, kwargs, lineno):
         st = ex.st
-        if isinstance(recv, Ref) and isinstance(st.heap.get(recv.id), PrettyTab):
-            return self._pretty_method(ex, recv, st.heap[recv.id], name, args, kwargs, lineno)
         if not _on(ex):
             return NotImplemented
         if isinstance(recv, Ref) and isinstance(st.heap.get(recv.id), ListObj):
@@ -230,9 +214,6 @@ class DsFileModels:
                 c = csv_count(o.elems, x, o.n)
                 st.assume(z3.And(0 <= c, c <= o.n))
                 return SV(c, TInt)
-        if name == "format" and isinstance(recv, SV) and recv.ty == TStr and not args and set(kwargs) == {"name", "index"}:
-            ex.assumed.add("T6: '{name}'.format(name=name, index=i) is name (names without braces)")
-            return kwargs["name"]
         return NotImplemented
 
     def coerce(self, ex, v, t):
@@ -264,7 +245,7 @@ class DsFileModels:
                     ex.check(f, "safety", f"ghost-assert:{label}", node.lineno, aux=True)
         return NotImplemented
 
-    # ------------------------------------------------------------------ PrettyTable (T5)
+    # ------------------------------------------------------------------ DesignSpace()
     def construct(self, ex, cv, args, kwargs, lineno):
         if cv.qualname == DS and getattr(ex.contract, "c11_files", False) and not args and not kwargs:
             # DesignSpace(): __init__ only assigns literals ({} / 0 / None / False) and calls __clear_dependent_data
@@ -281,41 +262,4 @@ class DsFileModels:
             st.assume(z3.Not(o.fields["_DesignSpace__norm_data_is_computed"].term))
             o.fresh_created = True
             return ref
-        if cv.qualname.rsplit(".", 1)[-1] == "PrettyTable" and _on(ex) and len(args) == 1:
-            st = ex.st
-            ex.assumed.add("T5: PrettyTable(field_names) / add_row / get_string / write: one header line and one line per row, cell by cell "
-                           "(None -> 'None', a string without white space -> itself, a number -> a text that is not 'None' and parses back to it); "
-                           "a table without rows prints as the empty string")
-            cells = st.fresh_const("ptcells", TAB_F)
-            return st.alloc(PrettyTab(args[0], z3.IntVal(0), cells))
-        return NotImplemented
-
-    def _pretty_method(self, ex, ref, o, name, args, kwargs, lineno):
-        st = ex.st
-        if name == "add_row" and len(args) == 1:
-            row = args[0]
-            lo = st.heap[row.id] if isinstance(row, Ref) else None
-            if not isinstance(lo, ListObj) or lo.t.sort() != ValS:
-                raise Unsupported(f"PrettyTable model: row {row!r}")
-            fl = st.heap[o.fields.id]
-            if not st.decide(lo.n == fl.n):
-                raise _raise("ValueError", lineno)  # prettytable: row has incorrect number of values
-            o.cells = z3.Store(o.cells, o.n, lo.elems)
-            o.n = o.n + 1
-            return None
-        if name == "get_string" and not args and not kwargs:
-            return ref  # the text of the table: the table itself (T5)
-        raise Unsupported(f"PrettyTable model: method {name}")
-
-    def ref_attr(self, ex, ref, o, attr, lineno):
-        if isinstance(o, PrettyTab):
-            if attr in ("add_row", "get_string", "__setattr__"):
-                return BoundMethod(ref, None, attr)
-            if attr == "align":
-                return ex.st.alloc(DictObj.empty(ex.st, TStr, TStr))
-        return NotImplemented
-
-    def set_attr(self, ex, obj, attr, v, lineno):
-        if isinstance(obj, Ref) and isinstance(ex.st.heap.get(obj.id), PrettyTab) and attr in ("custom_format", "border"):
-            return None  # layout options: no effect on the cells (T5)
         return NotImplemented
